@@ -246,6 +246,12 @@ def check(ax, case, rec):
             fstate[0].values[...] = fb.values
             r = np.asarray(it.assemble.vector(fstate).toarray()).ravel().reshape(-1, fb.dim)
             rec.label("state-from-foreign-container")
+        elif c["lseed"] % 2:
+            # the pressure is handed over with the call (what a ramped step does through update() / the keyword)
+            it = fem.SolidBodyPressure(fc, pressure=0.37 * p - 1.0)
+            it.assemble.vector(fc)
+            r = np.asarray(it.assemble.vector(fc, pressure=p).toarray()).ravel().reshape(-1, fb.dim)
+            rec.label("pressure-keyword")
         else:
             it = fem.SolidBodyPressure(fc, pressure=p)
             r = np.asarray(it.assemble.vector(fc).toarray()).ravel().reshape(-1, fb.dim)
@@ -282,8 +288,18 @@ def check(ax, case, rec):
         if um is None:
             rec.reject("no two-field material")
             return
-        body = fem.SolidBody(um, fc, density=rho) if c["mask"] else fem.SolidBody(um, fc)
-        M = body.assemble.mass() if c["mask"] else body.assemble.mass(density=rho)
+        variant = c["lseed"] % 3
+        if variant == 0:
+            body = fem.SolidBody(um, fc, density=rho)
+            M = body.assemble.mass()
+        elif variant == 1:
+            body = fem.SolidBody(um, fc)
+            M = body.assemble.mass(density=rho)
+        else:
+            # a density handed to mass() takes precedence over the one stored in the body
+            body = fem.SolidBody(um, fc, density=2.5 * rho + 0.3)
+            M = body.assemble.mass(density=rho)
+        rec.label(("stored-density", "density-argument", "argument-overrides-stored-density")[variant])
         M = np.asarray(M.toarray())
         n0 = fc.fields[0].values.size
         rec.require("mass-shape", M.shape == (n0, n0), M.shape)
